@@ -12,6 +12,7 @@ import (
 	"math/rand"
 	"os"
 	"path/filepath"
+	"regexp"
 	"sort"
 	"strings"
 	"sync"
@@ -56,22 +57,23 @@ type Ctx struct {
 
 	start time.Time
 
-	mu           sync.Mutex
-	evals        int64
-	nontrivial   map[string]struct{}
-	samples      []any
-	violations   int
-	known        map[string]int
-	knownPrinted map[string]bool
-	inconclusive int
-	notJudged    int64
-	counters     map[string]int64
-	sets         map[string]map[string]struct{}
-	extra        map[string]any
-	assumptions  []string
-	kf           []kfEntry
-	maxSamples   int
-	violKeys     map[string]int
+	mu             sync.Mutex
+	evals          int64
+	nontrivial     map[string]struct{}
+	samples        []any
+	violations     int
+	known          map[string]int
+	knownPrinted   map[string]bool
+	inconclusive   int
+	inconclReasons map[string]int
+	notJudged      int64
+	counters       map[string]int64
+	sets           map[string]map[string]struct{}
+	extra          map[string]any
+	assumptions    []string
+	kf             []kfEntry
+	maxSamples     int
+	violKeys       map[string]int
 }
 
 func NewCtx(id, tier string, seed int64) *Ctx {
@@ -229,10 +231,25 @@ func (c *Ctx) Inconclusive(i int, why string) {
 	c.mu.Lock()
 	c.inconclusive++
 	n := c.inconclusive
+	if c.inconclReasons == nil {
+		c.inconclReasons = map[string]int{}
+	}
+	c.inconclReasons[reasonBucket(why)]++
 	c.mu.Unlock()
 	if n <= 20 {
 		fmt.Printf("INCONCLUSIVE property=%s case=%d %s\n", c.ID, i, oneLine(why))
 	}
+}
+
+var digitsRe = regexp.MustCompile(`[0-9]+`)
+
+// reasonBucket normalises an inconclusive reason for counting.
+func reasonBucket(why string) string {
+	s := digitsRe.ReplaceAllString(oneLine(why), "#")
+	if len(s) > 100 {
+		s = s[:100]
+	}
+	return s
 }
 
 func oneLine(s string) string {
@@ -476,6 +493,9 @@ func (c *Ctx) writeEvidence(chk Check, cases int, wall float64) error {
 	}
 	cov["samples"] = samples
 	cov["inconclusive"] = c.inconclusive
+	if len(c.inconclReasons) > 0 {
+		cov["inconclusive_reasons"] = c.inconclReasons
+	}
 	cov["not_judged"] = c.notJudged
 	kn := map[string]int{}
 	for k, v := range c.known {
